@@ -227,6 +227,7 @@ pub struct UpMon {
     pub time: u64,
     pub p_bitfield: bool,
     pub p_interested: bool,
+    pub p_unchoked: bool,
 }
 
 const UP_REQUESTS: [(&str, (u32, u32, u32)); 4] = [("Q0", (0, 0, 1)), ("Q2", (2, 1, 3)), ("Q1", (1, 0, 1)), ("Qb", (0, 16386, 3))];
@@ -237,7 +238,9 @@ impl Scenario for Upload {
         format!("upload-{}{}", if self.incoming { "incoming" } else { "outgoing" }, if self.second { "-with-second-peer" } else { "" })
     }
     fn cfg(&self) -> WorldCfg {
-        WorldCfg { torrent: torrent(), have: vec![0, 2], peers: vec![peer_cfg(0, !self.incoming)], gated: false, stale: vec![] }
+        // with the second peer: a file of the right length but other content already sits under the
+        // name of piece 1, which the client lacks (a leftover of an interrupted run)
+        WorldCfg { torrent: torrent(), have: vec![0, 2], peers: vec![peer_cfg(0, !self.incoming)], gated: false, stale: if self.second { vec![1] } else { vec![] } }
     }
     fn explore_choices(&self) -> bool {
         true
@@ -263,9 +266,12 @@ impl Scenario for Upload {
         }
         e.extend(UP_REQUESTS.iter().map(|r| r.0.to_string()));
         if self.second {
-            e.retain(|x| x != "Q1" && x != "Qb" && x != "Q2");
+            e.retain(|x| x != "Qb" && x != "Q2");
             if !mon.p_bitfield {
                 e.push("Pb".to_string());
+            } else if !mon.p_unchoked {
+                // P unchokes us: piece 1 is reserved for it (being fetched, not owned)
+                e.push("Pu".to_string());
             }
             e.push(if mon.p_interested { "Pn".to_string() } else { "Pi".to_string() });
         }
@@ -276,6 +282,7 @@ impl Scenario for Upload {
             "R" => return vec![Ev::Rotate],
             "Pb" => return vec![Ev::MgrBitfield(0, vec![false, true, false])],
             "Pi" => return vec![Ev::MgrInterested(0)],
+            "Pu" => return vec![Ev::MgrUnchoke(0)],
             "Pn" => return vec![Ev::MgrNotInterested(0)],
             "I" => Msg::Interested,
             "N" => Msg::NotInterested,
@@ -299,6 +306,7 @@ impl Scenario for Upload {
             Some("N") => mon.interested = false,
             Some("B") => mon.bitfield_sent = true,
             Some("Pb") => mon.p_bitfield = true,
+            Some("Pu") => mon.p_unchoked = true,
             Some("Pi") => mon.p_interested = true,
             Some("Pn") => mon.p_interested = false,
             _ => {}
@@ -336,7 +344,7 @@ impl Scenario for Upload {
         None
     }
     fn key(&self, w: &World, mon: &UpMon) -> String {
-        format!("{} wire={} bf={} int={}", crate::c12::strip_counters(&w.default_key()), mon.unchoked, mon.bitfield_sent, mon.interested) + &format!(" pb={} pi={}", mon.p_bitfield, mon.p_interested)
+        format!("{} wire={} bf={} int={}", crate::c12::strip_counters(&w.default_key()), mon.unchoked, mon.bitfield_sent, mon.interested) + &format!(" pb={} pi={} pu={}", mon.p_bitfield, mon.p_interested, mon.p_unchoked)
     }
     fn tags(&self, w: &World, _mon: &UpMon) -> Vec<&'static str> {
         let mut t = vec![];
@@ -410,7 +418,7 @@ pub fn run(ctx: &Ctx) -> Outcome {
     o.set("histories", json!(all.len()));
     o.set("histories_ending_with_a_loaded_piece", json!(served));
     o.set("exhaustive", json!(done == all.len() as u64));
-    o.set("rule", json!(format!("requests = {:?} x {:?} x {:?} (240); histories: every single request in each of the contexts {:?} on an outgoing and an incoming connection; every pair (r1, r2) with r1 from {} and one of {:?} in between{}; states = distinct final snapshots, transitions = events executed. BFS part: one connection (both directions), events I/N interest, B bitfield, R real rotation (optimistic choice enumerated), Q0/Q2/Qb valid requests for owned pieces, Q1 request for the piece the client lacks, to the stated depth - this reaches the manager states in which the peer holds, or held, the optimistic unchoke; -with-second-peer: a manager-only peer P next to the connection (Pb bitfield, Pi/Pn interest) whose changes fall into the same rotations, requests restricted to Q0", IDX, BEG, LEN, CONTEXTS, if ctx.tier == core::Tier::Thorough { "all 240 requests" } else { "the 6 loader requests" }, MIDS, if ctx.tier == core::Tier::Thorough { "; every triple over a 12-request sub-alphabet with every pair of in-between decisions" } else { "" })));
+    o.set("rule", json!(format!("requests = {:?} x {:?} x {:?} (240); histories: every single request in each of the contexts {:?} on an outgoing and an incoming connection; every pair (r1, r2) with r1 from {} and one of {:?} in between{}; states = distinct final snapshots, transitions = events executed. BFS part: one connection (both directions), events I/N interest, B bitfield, R real rotation (optimistic choice enumerated), Q0/Q2/Qb valid requests for owned pieces, Q1 request for the piece the client lacks, to the stated depth - this reaches the manager states in which the peer holds, or held, the optimistic unchoke; -with-second-peer: a manager-only peer P next to the connection (Pb bitfield, Pu unchoke = piece 1 gets reserved for it, Pi/Pn interest) whose changes fall into the same rotations; a leftover file of the right length sits under the name of piece 1; requests Q0 (owned) and Q1 (lacked, possibly reserved)", IDX, BEG, LEN, CONTEXTS, if ctx.tier == core::Tier::Thorough { "all 240 requests" } else { "the 6 loader requests" }, MIDS, if ctx.tier == core::Tier::Thorough { "; every triple over a 12-request sub-alphabet with every pair of in-between decisions" } else { "" })));
     let picks = ctx.seeded_pick(all.len(), 4);
     o.set("samples", Value::Array(picks.iter().map(|i| json!({"connection": if all[*i].incoming { "incoming" } else { "outgoing" }, "context": CONTEXTS[all[*i].ctx], "requests": all[*i].seq.iter().map(|(r, m)| json!({"request": [r.0, r.1, r.2], "then": MIDS[*m]})).collect::<Vec<_>>()})).collect()));
     o.assume("client owns pieces 0 (16387 B) and 2 (5 B), not piece 1; choke/unchoke decisions are produced by the real rotation (timeout_change_conn_state) after the connection reported its rates; overflow checks are on, as in cargo test / cargo run builds");
